@@ -30,7 +30,20 @@ type Op struct {
 	Mt      int64  `json:"mt,omitempty"`
 	N       int    `json:"n,omitempty"`
 	Spell   int    `json:"spell,omitempty"` // how the paths are spelled towards the implementation (0 = clean absolute)
+	SpellB  int    `json:"spellb,omitempty"` // rename: the destination's spelling, chosen independently (-1 = clean absolute)
 	Members []Op   `json:"members,omitempty"`
+}
+
+// spelled returns the two paths as they are handed to the implementation.
+func (o Op) spelled() (string, string) {
+	sb := o.SpellB
+	switch {
+	case sb == 0:
+		sb = o.Spell
+	case sb < 0:
+		sb = 0
+	}
+	return spell(o.A, o.Spell), spell(o.B, sb)
 }
 
 func (o Op) content() []byte { return genContent(o.Len, o.Dist, o.DSeed) }
@@ -57,11 +70,11 @@ func flagStr(f int) string {
 }
 
 func (o Op) String() string {
-	if o.Spell != 0 {
+	if o.Spell != 0 || o.SpellB != 0 {
 		c := o
-		c.Spell = 0
-		c.A, c.B = spell(o.A, o.Spell), spell(o.B, o.Spell)
-		return c.String() + fmt.Sprintf(" [spelling %d of %q]", o.Spell, o.A)
+		c.A, c.B = o.spelled()
+		c.Spell, c.SpellB = 0, 0
+		return c.String() + fmt.Sprintf(" [spelling %d/%d of %q]", o.Spell, o.SpellB, o.A)
 	}
 	switch o.K {
 	case "mkdir", "mkdirall":
@@ -112,9 +125,7 @@ func failOut(phase string, err error) Outcome {
 func execOp(rig *Rig, o Op) Outcome {
 	stepBegin()
 	f := rig.FS
-	if o.Spell != 0 {
-		o.A, o.B = spell(o.A, o.Spell), spell(o.B, o.Spell)
-	}
+	o.A, o.B = o.spelled()
 	switch o.K {
 	case "mkdir":
 		if err := f.Mkdir(o.A, os.FileMode(o.Perm)); err != nil {
